@@ -66,6 +66,11 @@ def value_for(b, shape, dtype_kind="f", family_of=None, allow_tensor=True, posit
     return R(m), [m]
 
 
+def _is_advanced(ix):
+    items = ix if isinstance(ix, tuple) else (ix,)
+    return any(isinstance(i, (np.ndarray, list)) for i in items)
+
+
 def s_setitem(b, t, adv_prob=0.45):
     rng = b.rng
     tv = b.val(t)
@@ -80,6 +85,11 @@ def s_setitem(b, t, adv_prob=0.45):
     if np.size(sub) == 0 and rng.random() < 0.8:
         return False
     val, refs = value_for(b, np.shape(sub), tv.dtype.kind)
+    adv = not (isinstance(sub, np.ndarray) and sub.base is not None and np.shares_memory(sub, tv)) and np.size(sub) > 0 and not np.isscalar(sub)
+    if refs and isinstance(b.val(refs[0]), np.ndarray) and np.shares_memory(b.val(refs[0]), tv) and _is_advanced(ix):
+        # NumPy's own result for fancy / boolean-mask assignment from an OVERLAPPING source is an implementation artifact (not the
+        # 'value is read first' semantics it guarantees for basic slices), so it cannot serve as the specification there
+        return False
     return b.emit({"k": "setitem", "tgt": t, "index": enc_index(ix), "value": val})
 
 
@@ -154,7 +164,7 @@ def s_setshape(b, t):
     return b.emit({"k": "setshape", "tgt": t, "shape": ["t", dims] if rng.random() < 0.8 or len(dims) > 1 else dims[0]})
 
 
-def s_view(b, t):
+def s_view(b, t, const_kw_prob=0.0):
     rng = b.rng
     tv = b.val(t)
     c = rng.random()
@@ -167,7 +177,17 @@ def s_view(b, t):
             return None
         return b.call("getitem", [R(t), enc_index(ix)], sp="mg", prefix="w")
     if c < 0.9:
-        return B.g_shape(b, x=t, only_view=True)
+        n = B.g_shape(b, x=t, only_view=True)
+        if n is not None and const_kw_prob and rng.random() < const_kw_prob and tv.dtype.kind == "f" and b.prog[-1].get("out") == n \
+                and b.prog[-1]["fn"] not in ("T",) and not b.prog[-1]["fn"].startswith("atleast"):
+            # an explicit constant= on a view-producing call always wins over the base's flag
+            flag = rng.random() < 0.5
+            st = b.prog[-1]
+            st.setdefault("kw", {})["constant"] = flag
+            if st.get("sp") in ("np", "op"):
+                st["sp"] = "mg"
+            b.meta[n]["nonconst"] = not flag
+        return n
     # diagonal / permutation through einsum (view-producing forms)
     if tv.ndim == 2 and tv.shape[0] == tv.shape[1] and rng.random() < 0.5:
         return b.call("einsum", ["ii->i", R(t)], sp=rng.choice(["mg", "np"]), prefix="w")
@@ -209,8 +229,35 @@ def s_read(b, t):
     return None
 
 
+def s_bad(b, t):
+    """A statement NumPy itself rejects (so MyGrad must reject it too and change nothing): appended WITHOUT touching the shadow."""
+    rng = b.rng
+    tv = b.val(t)
+    c = rng.random()
+    st = None
+    if c < 0.4 and tv.size > 1:
+        dims = B.factorizations(tv.size, rng)
+        if tuple(dims) == tv.shape:
+            return False
+        probe = tv.view()
+        try:
+            probe.shape = tuple(dims)
+            return False           # NumPy can do it without a copy: not a bad statement
+        except AttributeError:
+            st = {"k": "setshape", "tgt": t, "shape": ["t", dims]}
+    elif c < 0.7:
+        bad = tuple(n + 1 for n in tv.shape) if tv.ndim else (2, 2)
+        st = {"k": "setitem", "tgt": t, "index": ["e"], "value": enc_arr(np.ones(bad))}
+    else:
+        bad = (2,) + tuple(tv.shape) if tv.ndim else (3,)
+        st = {"k": "aug", "tgt": t, "op": rng.choice(["+", "*"]), "value": enc_arr(np.ones(bad))}
+    st["expect_raise"] = True
+    b.prog.append(st)
+    return True
+
+
 def gen_history(rng, nstmts=(3, 12), int_prob=0.12, base_from_op_prob=0.4, second_family_prob=0.3, inplace_w=4, view_w=4, read_w=3,
-                setshape_w=0.6, max_ndim=3, layouts=None, nonconst_only=False):
+                setshape_w=0.6, max_ndim=3, layouts=None, nonconst_only=False, const_kw_prob=0.0, bad_w=0.0):
     b = B.Builder(rng)
     shape = B.rand_shape(rng, max_ndim, 4, 1)
     is_int = rng.random() < int_prob
@@ -227,7 +274,7 @@ def gen_history(rng, nstmts=(3, 12), int_prob=0.12, base_from_op_prob=0.4, secon
     target = rng.randint(*nstmts)
     made = tries = 0
     n_inplace = 0
-    acts = [("inplace", inplace_w), ("view", view_w), ("read", read_w), ("setshape", setshape_w)]
+    acts = [("inplace", inplace_w), ("view", view_w), ("read", read_w), ("setshape", setshape_w), ("bad", bad_w)]
     tot = sum(w for _, w in acts)
     while made < target and tries < target * 10:
         tries += 1
@@ -247,7 +294,9 @@ def gen_history(rng, nstmts=(3, 12), int_prob=0.12, base_from_op_prob=0.4, secon
         t = rng.choice(mem) if (rng.random() < 0.7 or base not in mem) else base
         ok = None
         if a == "view":
-            ok = s_view(b, t)
+            ok = s_view(b, t, const_kw_prob)
+        elif a == "bad":
+            ok = s_bad(b, t)
         elif a == "read":
             ok = s_read(b, t)
         elif a == "setshape":
